@@ -53,6 +53,8 @@ pub struct DivideByZeroError { pub k: u8 }
 pub struct ConversionOverflowError { pub k: u8 }
 pub enum StdError { GenericErr { k: u8 }, NotFound { k: u8 }, Overflow { source: OverflowError }, DivideByZero { k: u8 }, ParseErr { k: u8 }, Other { k: u8 } }
 pub type StdResult<T> = Result<T, StdError>;
+impl core::fmt::Debug for StdError { #[verifier::external_body] fn fmt(&self, f: &mut core::fmt::Formatter<'_>) -> core::fmt::Result { unimplemented!() } }
+impl core::fmt::Display for StdError { #[verifier::external_body] fn fmt(&self, f: &mut core::fmt::Formatter<'_>) -> core::fmt::Result { unimplemented!() } }
 impl StdError {
     #[verifier::external_body]
     pub fn generic_err(msg: impl Into<String>) -> (r: StdError) ensures r is GenericErr { unimplemented!() }
@@ -91,6 +93,13 @@ pub assume_specification [ <String as PartialEq<str>>::eq ] (a: &String, b: &str
 
 pub assume_specification<T: Ord + core::marker::Destruct> [ core::cmp::max ] (a: T, b: T) -> (r: T)
     ensures T::obeys_cmp_spec() ==> r == (if a.cmp_spec(&b) is Greater { a } else { b });
+
+pub assume_specification<T: core::marker::Destruct, E: core::marker::Destruct, F: core::marker::Destruct> [ Result::<T, E>::or ] (a: Result<T, E>, b: Result<T, F>) -> (r: Result<T, F>)
+    ensures r == (match a { Ok(x) => Ok::<T, F>(x), Err(_) => b });
+
+pub assume_specification<T, E, F, O: FnOnce(E) -> Result<T, F>> [ Result::<T, E>::or_else ] (a: Result<T, E>, op: O) -> (r: Result<T, F>)
+    requires a is Err ==> op.requires((a->Err_0,))
+    ensures a is Ok ==> r == Ok::<T, F>(a->Ok_0), a is Err ==> op.ensures((a->Err_0,), r);
 
 // str helpers whose results no contract depends on (uninterpreted results)
 pub assume_specification [ str::trim ] (s: &str) -> (r: &str);
@@ -198,6 +207,7 @@ impl core::ops::Sub<Uint128> for Uint128 {
     #[verifier::external_body]
     fn sub(self, rhs: Uint128) -> (r: Uint128) ensures self.0 >= rhs.0 { Uint128(self.0 - rhs.0) }
 }
+impl core::fmt::Display for Uint128 { #[verifier::external_body] fn fmt(&self, f: &mut core::fmt::Formatter<'_>) -> core::fmt::Result { unimplemented!() } }
 impl From<Uint128> for String { #[verifier::external_body] fn from(a: Uint128) -> String { unimplemented!() } }
 impl From<u128> for Uint128 { fn from(a: u128) -> (r: Uint128) { Uint128(a) } }
 impl FromSpecImpl<u128> for Uint128 { open spec fn obeys_from_spec() -> bool { true } open spec fn from_spec(a: u128) -> Self { Uint128(a) } }
@@ -690,7 +700,13 @@ pub trait JsonT: Sized { spec fn json(self) -> Seq<u8>; spec fn unjson(b: Seq<u8
 pub broadcast axiom fn ax_json<V: JsonT>(v: V) ensures V::unjson(#[trigger] v.json()) == Some(v);
 #[verifier::external_body]
 pub fn to_json_binary<V: JsonT>(v: &V) -> (r: StdResult<Binary>) ensures r is Ok, r->Ok_0@ == v.json() { unimplemented!() }
+/// stand-in for the bound `impl AsRef<[u8]>` of cosmwasm_std::from_json (Binary and &Binary are what the repository passes)
+pub trait AsBytes { spec fn bytes_view(&self) -> Seq<u8>; }
+impl AsBytes for Binary { open spec fn bytes_view(&self) -> Seq<u8> { self@ } }
+impl<'a> AsBytes for &'a Binary { open spec fn bytes_view(&self) -> Seq<u8> { (**self)@ } }
 #[verifier::external_body]
-pub fn from_json<V: JsonT>(b: &Binary) -> (r: StdResult<V>) ensures r is Ok <==> V::unjson(b@) is Some, r is Ok ==> Some(r->Ok_0) == V::unjson(b@) { unimplemented!() }
+pub fn from_json<V: JsonT, B: AsBytes>(b: B) -> (r: StdResult<V>)
+    ensures r is Ok <==> V::unjson(b.bytes_view()) is Some, r is Ok ==> Some(r->Ok_0) == V::unjson(b.bytes_view())
+{ unimplemented!() }
 
 } // verus!
